@@ -618,6 +618,23 @@ func runFilters(t *testing.T, rc *core.RunCtx) {
 		rc.Probe("reorg_while_parked_at_" + site)
 		follow(honestTip, true)
 	}
+	if rc.Prop == "C04" && tp.Chance(1, 4) {
+		// Lost wake-up hunt: right before the filter-header goroutine
+		// goes to sleep on the new-headers signal (its n-th time), a block
+		// arrives and its header is processed at once.
+		w.softNth = 1 + tp.Intn(6)
+		w.softAct = func() {
+			if !w.peers[0].connected() || !w.peers[0].shook || !w.running {
+				return
+			}
+			honestTip = w.mineChain(honestTip, 1, time.Minute, time.Now().Add(-5*time.Second), 0, "", &plan.salt, 70)
+			rc.Logf("t=%s chain grows by 1 to %d, announced and delivered at once, while the filter-header goroutine is about to wait for the new-headers signal", w.clock(), honestTip.Height)
+			rc.Probe("block_arrives_right_before_cfhandler_waits")
+			follow(honestTip, false)
+			w.peers[0].announce(true, 1)
+			w.flushEvents(10 * time.Second)
+		}
+	}
 	sw.kick = func() {
 		honestTip = w.mineChain(honestTip, 1, time.Minute, time.Now().Add(-5*time.Second), 0, "", &plan.salt, 70)
 		rc.Logf("t=%s chain grows by 1 to %d while a subscription is between backlog and registration", w.clock(), honestTip.Height)
@@ -736,6 +753,26 @@ func runFilters(t *testing.T, rc *core.RunCtx) {
 		}
 		p.setUp(false)
 		p.disconnect("calm phase")
+	}
+	// The premise is an honest node serving THE most-work valid chain: a
+	// valid block some node produced off that chain (the valid beginning of
+	// a header liar's branch, handed out one header at a time) must not
+	// carry as much work.
+	for grown := 0; grown < 8; grown++ {
+		rival := false
+		for _, b := range w.tree.ByHash {
+			if !b.Tainted && !b.IsAncestorOf(honestTip) && b.CumWork.Cmp(honestTip.CumWork) >= 0 {
+				rival = true
+				break
+			}
+		}
+		if !rival {
+			break
+		}
+		honestTip = w.mineChain(honestTip, 1, time.Minute, time.Now().Add(-10*time.Second), 0, "", &plan.salt, 70)
+		rc.Logf("t=%s calm phase: a valid block off the honest chain carries as much work; the honest chain grows by 1 to %d", w.clock(), honestTip.Height)
+		rc.Probe("honest_chain_grown_past_valid_rival")
+		follow(honestTip, true)
 	}
 	w.peers[0].setView(honestTip)
 	w.peers[0].setUp(true)
